@@ -1,4 +1,5 @@
 SPECIFICATION Spec
 CONSTANT TolScale = "1"
+CONSTANT TolExact = "1"
 INVARIANT CatalogueOK
 CHECK_DEADLOCK FALSE
